@@ -359,6 +359,15 @@ class LoadedWorld:
                 self.decls[(name, d["n"])] = d
         self._tcache: dict[tuple[str, str], object] = {}
 
+    def reload(self):
+        """Execute every module's source again in its own namespace (a hot reload): every class,
+        NewType and alias of the world is a new object under the old name."""
+        for mod in self.desc["modules"]:
+            name = mod["name"]
+            code = compile(mod["src"], f"<{name}>", "exec", dont_inherit=True)
+            exec(code, self.modules[name].__dict__)
+        self._tcache.clear()
+
     def realize(self, t: dict, mod: str | None = None, fresh: bool = False):
         """Evaluate a type AST inside a world module (default: the first one)."""
         mod = mod or self.desc["modules"][0]["name"]
@@ -466,6 +475,8 @@ def _build(v, w):
         return collections.deque(_build(x, w) for x in a)
     if tag == "$dict":
         return {_build(k, w): _build(x, w) for k, x in a}
+    if tag == "$ddict":  # a mapping whose __missing__ inserts (looking up an absent key changes it)
+        return collections.defaultdict(list, [(_build(k, w), _build(x, w)) for k, x in a])
     if tag == "$odict":
         return collections.OrderedDict((_build(k, w), _build(x, w)) for k, x in a)
     if tag == "$obj":
